@@ -363,10 +363,13 @@ pub fn t_holds(rng: &mut Rng, profile: &'static str, run_seed: u64, miri: bool, 
         let mut touched = vec![];
         for _ in 0..rng.range(1, if miri { 2 } else { 4 }) {
             let obj = k + rng.below(n_free as u64) as usize;
-            let r = rng.below(10);
+            let r = rng.below(if saturate { 10 } else { 12 });
             let id = if r < 4 { prog.add_op(obj, Kind::Sync, Disp::None, vec![Step::Touch]) }
                      else if r < 8 { prog.add_op(obj, Kind::Desync, Disp::None, vec![Step::Touch]) }
-                     else { prog.add_op(obj, Kind::FutDesync, Disp::Detach, vec![Step::Touch, Step::Yield, Step::Touch]) };
+                     else if r < 10 { prog.add_op(obj, Kind::FutDesync, Disp::Detach, vec![Step::Touch, Step::Yield, Step::Touch]) }
+                     // a future operation that its caller polls once (possibly starting it on the calling thread) and then abandons: when
+                     // the event it waits for arrives, a free pool thread has to take the object over
+                     else { let g = prog.new_gate(); prog.add_op(obj, Kind::FutDesync, Disp::PollDrop(1), vec![Step::Touch, Step::Gate(g), Step::Touch]) };
             if !touched.contains(&obj) { touched.push(obj); }
             acts.push(TAct::Op(id));
         }
@@ -621,7 +624,7 @@ pub fn t_pipe(rng: &mut Rng, profile: &'static str, run_seed: u64, miri: bool, t
     let preloaded = rng.below(n_items as u64 + 1).min(if rng.chance(1, 2) { 0 } else { 8 }) as usize;
     let close = !drop_output && rng.chance(4, 5);
     let preclosed = close && preloaded == n_items && rng.chance(1, 2);
-    prog.pipes.push(PipeDef { obj: 0, through, depth, items: items.clone(), preloaded, preclosed, mpsc: !drop_output && rng.chance(1, 4), register_first: rng.chance(1, 3), chain_to: None });
+    prog.pipes.push(PipeDef { obj: 0, through, depth, items: items.clone(), preloaded, preclosed, mpsc: !drop_output && rng.chance(1, 4), register_first: rng.chance(1, 3), keep_waker: rng.chance(1, 3), chain_to: None });
     // creator / consumer thread
     let mut t0 = vec![TAct::PipeCreate(0)];
     if through {
@@ -690,7 +693,7 @@ pub fn t_pipe_chain(rng: &mut Rng, profile: &'static str, run_seed: u64, miri: b
         let mut items = vec![];
         for _ in 0..n_items { let b = item_body(rng, &mut prog, 10); let id = prog.add_op(p, Kind::PipeItem, Disp::None, b); prog.ops[id].pipe = Some(p); items.push(id); }
         for _ in 0..n_items { prog.pusher.push(FAct::Item(p)); }
-        prog.pipes.push(PipeDef { obj: p, through: false, depth: 5, items, preloaded: 0, preclosed: false, mpsc: false, register_first: rng.chance(1, 2), chain_to: if p == 0 { Some(1) } else { None } });
+        prog.pipes.push(PipeDef { obj: p, through: false, depth: 5, items, preloaded: 0, preclosed: false, mpsc: false, register_first: rng.chance(1, 2), keep_waker: rng.chance(1, 3), chain_to: if p == 0 { Some(1) } else { None } });
     }
     let mut pusher = std::mem::take(&mut prog.pusher);
     rng.shuffle(&mut pusher);
